@@ -163,6 +163,9 @@ type attempt struct {
 	noEOF   bool // do not append the EOF packet (the check ends the stream some other way)
 	// noSnapshot / noMangle: the check does its own bookkeeping of what the handler was handed (C08)
 	noSnapshot, noMangle bool
+	// noRetain: the harness does not keep the transactions it was handed either (a check that wants the
+	// garbage collector to see them as unreachable)
+	noRetain bool
 }
 
 // attemptState is what the harness observed during one attempt.
@@ -391,6 +394,9 @@ func (ss *session) run(at attempt) *attemptState {
 				st.got = append(st.got, snap)
 				st.snaps = append(st.snaps, nil)
 				mangleTx(tx)
+			} else if at.noRetain {
+				st.got = append(st.got, nil)
+				st.snaps = append(st.snaps, nil)
 			} else {
 				st.got = append(st.got, tx)
 				st.snaps = append(st.snaps, snap)
